@@ -242,6 +242,17 @@ def run(P, rep, tier):
         else:
             rep.ok(r3, 'after %s' % X, {'paths_reaching_second_header': r['reached']})
     rep.extra['paths_explored'] = total_paths
+    r6 = rep.rule('C10-R6', 'the shared transition table (and every other module-level container) is never mutated by the reader', reference=1)
+    muts = {}
+    for res_ in results.values():
+        for m_ in res_.get('shared_mut', []):
+            muts.setdefault(m_[0], m_)
+    if muts:
+        for name, (nm, loc, fn, txt) in sorted(muts.items()):
+            rep.violation(r6, 'shared-mutated:%s' % txt, loc, 'the reader mutates the shared %s (%s in %s): the order relation changes '
+                          'for every later section and every other reader' % (nm, txt, fn), path=[fn])
+    else:
+        rep.ok(r6, 'reader paths', {'paths': total_paths})
     if not upstream_bad:
         rep.floor(r2, 81)
         rep.floor(r3, 8)
@@ -255,7 +266,21 @@ def _setstr(v, node):
     return str(sorted(s_)) if s_ is not None else 'UNKNOWN(%s)' % norm(node)
 
 
+def _shared_mutations(paths):
+    out = set()
+    for p in paths:
+        for ev in p.events:
+            if ev.kind in ('mutate', 'item-store', 'item-del') and getattr(ev.data.get('obj'), 'shared', None):
+                out.add((ev.data['obj'].shared, ev.loc, ev.fn, norm(ev.node)[:60]))
+    return sorted(out)
+
+
 def _task(t):
+    r = _task_inner(t)
+    return r
+
+
+def _task_inner(t):
     kind, Pid, X = t
     P, R, table, var, loop = _CTX
     H = ReaderHarness(P, R, havoc=True)
@@ -266,7 +291,7 @@ def _task(t):
             hd = [i for i, e in enumerate(p.events) if e.kind == 'k1-header']
             for ev in membership_events(p, X, hd[0] if hd else 0):
                 sets.add(_setstr(ev.data['right'], ev.node))
-        return {'paths': len(paths), 'exceeded': exceeded, 'sets': sorted(sets),
+        return {'paths': len(paths), 'exceeded': exceeded, 'sets': sorted(sets), 'shared_mut': _shared_mutations(paths),
                 'accepted': any(any(e.kind == 'yield' for e in p.events) for p in paths)}
     if kind == 'R2':
         row = frozenset(table.get(Pid, ()))
@@ -286,7 +311,8 @@ def _task(t):
                         ok = True
                 if not ok:
                     undominated = True
-        return {'paths': len(paths), 'exceeded': exceeded, 'accepted': accepted, 'undominated': undominated}
+        return {'paths': len(paths), 'exceeded': exceeded, 'accepted': accepted, 'undominated': undominated,
+                'shared_mut': _shared_mutations(paths)}
     if kind == 'R3':
         preds = [p for p in SPEC_IDS if X in table.get(p, ())]
         if not preds and X != 'diffx':
